@@ -469,18 +469,18 @@ Section StepCovariance.
   Hypothesis L_zero : L vzero = vzero.
   Hypothesis tau_nz : tau <> 0.
 
-  Definition S (u : V) : V := L u +v c0.
+  Definition Sc (u : V) : V := L u +v c0.
   (** how tendencies transform *)
   Definition Tn (t : V) : V := (1 / tau) *v L t.
 
   Variables (Fx G : V -> V) (Ginv : V -> F -> V) (Fx' G' : V -> V) (Ginv' : V -> F -> V).
-  Hypothesis HF : forall u, Fx' (S u) = Tn (Fx u).
-  Hypothesis HG : forall u, G' (S u) = Tn (G u).
-  Hypothesis HGinv : forall u eta, Ginv' (S u) (tau * eta) = S (Ginv u eta).
+  Hypothesis HF : forall u, Fx' (Sc u) = Tn (Fx u).
+  Hypothesis HG : forall u, G' (Sc u) = Tn (G u).
+  Hypothesis HGinv : forall u eta, Ginv' (Sc u) (tau * eta) = Sc (Ginv u eta).
 
-  Lemma S_plus u w : S u +v L w = S (u +v w).
+  Lemma S_plus u w : Sc u +v L w = Sc (u +v w).
   Proof.
-    unfold S. rewrite L_add. rewrite <- !vadd_assoc. f_equal. apply vadd_comm.
+    unfold Sc. rewrite L_add. rewrite <- !vadd_assoc. f_equal. apply vadd_comm.
   Qed.
 
   Lemma Tn_add t1 t2 : Tn t1 +v Tn t2 = Tn (t1 +v t2).
@@ -493,28 +493,28 @@ Section StepCovariance.
   Proof. unfold Tn. now rewrite L_zero, vscal_zero. Qed.
 
   (** state + (rescaled time) * (rescaled tendency) = rescaled (state + time * tendency) *)
-  Lemma S_axpy u a t : S u +v (tau * a) *v Tn t = S (u +v a *v t).
+  Lemma S_axpy u a t : Sc u +v (tau * a) *v Tn t = Sc (u +v a *v t).
   Proof.
     rewrite <- S_plus. f_equal. unfold Tn. rewrite vscal_mul, L_scal. f_equal.
     field. exact tau_nz.
   Qed.
-  Lemma S_axpy' u a a' t : a' = tau * a -> S u +v a' *v Tn t = S (u +v a *v t).
+  Lemma S_axpy' u a a' t : a' = tau * a -> Sc u +v a' *v Tn t = Sc (u +v a *v t).
   Proof. intros ->. apply S_axpy. Qed.
-  Lemma Ginv_cov u eta eta' : eta' = tau * eta -> Ginv' (S u) eta' = S (Ginv u eta).
+  Lemma Ginv_cov u eta eta' : eta' = tau * eta -> Ginv' (Sc u) eta' = Sc (Ginv u eta).
   Proof. intros ->. apply HGinv. Qed.
 
   Theorem euler_step_covariant dt u0 :
-    euler_step Fx' Ginv' (tau * dt) (S u0) = S (euler_step Fx Ginv dt u0).
+    euler_step Fx' Ginv' (tau * dt) (Sc u0) = Sc (euler_step Fx Ginv dt u0).
   Proof.
     unfold euler_step. cbv zeta. rewrite HF, S_axpy. apply HGinv.
   Qed.
 
   Theorem backward_euler_step_covariant dt u0 :
-    backward_euler_step Ginv' (tau * dt) (S u0) = S (backward_euler_step Ginv dt u0).
+    backward_euler_step Ginv' (tau * dt) (Sc u0) = Sc (backward_euler_step Ginv dt u0).
   Proof. unfold backward_euler_step. apply HGinv. Qed.
 
   Theorem cn_rk2_step_covariant dt u0 :
-    cn_rk2_step Fx' G' Ginv' (tau * dt) (S u0) = S (cn_rk2_step Fx G Ginv dt u0).
+    cn_rk2_step Fx' G' Ginv' (tau * dt) (Sc u0) = Sc (cn_rk2_step Fx G Ginv dt u0).
   Proof.
     unfold cn_rk2_step. cbv zeta.
     rewrite HF, HG.
@@ -526,8 +526,8 @@ Section StepCovariance.
   Qed.
 
   Theorem leapfrog_covariant dt alpha p q :
-    leapfrog_step Fx' G' Ginv' (tau * dt) alpha (S p, S q)
-    = (S (fst (leapfrog_step Fx G Ginv dt alpha (p, q))), S (snd (leapfrog_step Fx G Ginv dt alpha (p, q)))).
+    leapfrog_step Fx' G' Ginv' (tau * dt) alpha (Sc p, Sc q)
+    = (Sc (fst (leapfrog_step Fx G Ginv dt alpha (p, q))), Sc (snd (leapfrog_step Fx G Ginv dt alpha (p, q)))).
   Proof.
     unfold leapfrog_step. cbn [fst snd]. f_equal.
     rewrite HF, HG, Tn_scal, Tn_add.
@@ -537,7 +537,7 @@ Section StepCovariance.
 
   (** low-storage Runge-Kutta + Crank-Nicolson (crank_nicolson_rk3 / rk4): all lists, all lengths *)
   Theorem ls_loop_covariant dt al be ga h u :
-    ls_loop Fx' G' Ginv' (tau * dt) al be ga (Tn h) (S u) = S (ls_loop Fx G Ginv dt al be ga h u).
+    ls_loop Fx' G' Ginv' (tau * dt) al be ga (Tn h) (Sc u) = Sc (ls_loop Fx G Ginv dt al be ga h u).
   Proof.
     revert be ga h u. induction al as [|a0 al IH]; intros be ga h u.
     - destruct be, ga; reflexivity.
@@ -553,7 +553,7 @@ Section StepCovariance.
   Qed.
 
   Theorem ls_step_covariant dt al be ga u :
-    ls_step Fx' G' Ginv' (tau * dt) al be ga (S u) = S (ls_step Fx G Ginv dt al be ga u).
+    ls_step Fx' G' Ginv' (tau * dt) al be ga (Sc u) = Sc (ls_step Fx G Ginv dt al be ga u).
   Proof. unfold ls_step. rewrite <- ls_loop_covariant. now rewrite Tn_zero. Qed.
 
   (** general IMEX Runge-Kutta (imex_rk_sil3 and any other tableau) *)
@@ -575,7 +575,7 @@ Section StepCovariance.
   Proof. rewrite <- wsum_skip_covariant. now rewrite Tn_zero. Qed.
 
   Lemma imex_stages_covariant dt y0 b_ex b_im i rex rim fs gs :
-    imex_stages Fx' G' Ginv' (tau * dt) (S y0) b_ex b_im i rex rim (map oT fs) (map oT gs)
+    imex_stages Fx' G' Ginv' (tau * dt) (Sc y0) b_ex b_im i rex rim (map oT fs) (map oT gs)
     = option_map (fun p => (map oT (fst p), map oT (snd p)))
                  (imex_stages Fx G Ginv dt y0 b_ex b_im i rex rim fs gs).
   Proof.
@@ -597,8 +597,8 @@ Section StepCovariance.
   Qed.
 
   Theorem imex_step_covariant dt a_ex a_im b_ex b_im y0 :
-    imex_step Fx' G' Ginv' (tau * dt) a_ex a_im b_ex b_im (S y0)
-    = option_map S (imex_step Fx G Ginv dt a_ex a_im b_ex b_im y0).
+    imex_step Fx' G' Ginv' (tau * dt) a_ex a_im b_ex b_im (Sc y0)
+    = option_map Sc (imex_step Fx G Ginv dt a_ex a_im b_ex b_im y0).
   Proof.
     unfold imex_step.
     pose proof (imex_stages_covariant dt y0 b_ex b_im 1 a_ex a_im [Some (Fx y0)] [Some (G y0)]) as H.
@@ -618,18 +618,157 @@ Section StepCovariance.
     apply_filters fl u (step u).
 
   Theorem trajectory_covariant (step step' : V -> V) (fl fl' : list (V -> V -> V)) :
-    (forall u, step' (S u) = S (step u)) ->
-    Forall2 (fun f' f => forall u w, f' (S u) (S w) = S (f u w)) fl' fl ->
-    forall k u, Nat.iter k (step_with_filters step' fl') (S u) = S (Nat.iter k (step_with_filters step fl) u).
+    (forall u, step' (Sc u) = Sc (step u)) ->
+    Forall2 (fun f' f => forall u w, f' (Sc u) (Sc w) = Sc (f u w)) fl' fl ->
+    forall k u, Nat.iter k (step_with_filters step' fl') (Sc u) = Sc (Nat.iter k (step_with_filters step fl) u).
   Proof.
     intros Hs Hf.
-    assert (A : forall u, step_with_filters step' fl' (S u) = S (step_with_filters step fl u)).
+    assert (A : forall u, step_with_filters step' fl' (Sc u) = Sc (step_with_filters step fl u)).
     { intros u. unfold step_with_filters. rewrite Hs. generalize (step u) as w.
       induction Hf as [|f' f fl' fl Hff Hf IH]; intros w; cbn [apply_filters]; [reflexivity|].
       rewrite Hff. apply IH. }
     induction k as [|k IH]; intros u; [reflexivity|].
-    change (Nat.iter (S k) (step_with_filters step' fl') (S u)) with (step_with_filters step' fl' (Nat.iter k (step_with_filters step' fl') (S u))).
+    change (Nat.iter (S k) (step_with_filters step' fl') (Sc u)) with (step_with_filters step' fl' (Nat.iter k (step_with_filters step' fl') (Sc u))).
     change (Nat.iter (S k) (step_with_filters step fl) u) with (step_with_filters step fl (Nat.iter k (step_with_filters step fl) u)).
     rewrite IH. apply A.
   Qed.
 End StepCovariance.
+
+(** ** homogeneity of the nodal primitive-equation terms of Model/PrimEq.v.
+    Multipliers: [ku] velocity (cos_lat_u), [kr] rates (vorticity, divergence,
+    Coriolis), [kT] temperature, [kg] inverse length (cos_lat_grad_log_sp),
+    [kR] gas constant; kappa, sigma, sec2_lat and q are dimensionless.  The
+    relations between the multipliers that dimensional consistency of the
+    equations requires are explicit hypotheses ([ku*kg = kr],
+    [kR*kT*kg = ku*kr]); Prop/C12.v discharges them for [factor s d]. *)
+From Dino Require Import Model.Implicit Model.PrimEq.
+
+Section NodalTerms.
+  Context {F : Type} {o : Ops F} {Fc : FieldC o}.
+  Add Field FFsc5 : (field_c : FieldTh o).
+
+  Lemma fdiv_mul (x y : F) : x / y = x * finv y.
+  Proof. exact (Fdiv_def field_c x y). Qed.
+
+  Variables (ku kr kT kg kR : F).
+  Hypothesis H_rate : ku * kg = kr.
+  Hypothesis H_accel : kR * kT * kg = ku * kr.
+
+  Notation scale_ncol := (scale_ncol ku kr kT kg).
+  Notation scale_cfg := (scale_cfg kT kR).
+
+  Variable c : @PEcfg F.
+
+  Lemma u_dot_grad_homogeneous x k : u_dot_grad (scale_ncol x) k = kr * u_dot_grad x k.
+  Proof. unfold u_dot_grad, scale_ncol, scol; cbn. rewrite <- H_rate. ring. Qed.
+
+  Lemma cumint_scal a (g g' : nat -> F) j :
+    (forall k, g' k = a * g k) -> cumint (scale_cfg c) g' j = a * cumint c g j.
+  Proof.
+    intros H. unfold cumint, scale_cfg; cbn [cK cb]. unfold cum_sigma_integral.
+    rewrite <- cumsum_m_scal. apply cumsum_m_ext. intros i. unfold xdsigma. rewrite H. ring.
+  Qed.
+
+  Lemma sigma_dot_scal a (g g' : nat -> F) r :
+    (forall k, g' k = a * g k) -> sigma_dot (scale_cfg c) g' r = a * sigma_dot c g r.
+  Proof.
+    intros H. unfold sigma_dot. cbv zeta. rewrite !(cumint_scal a g g') by exact H.
+    unfold sum_sigma, scale_cfg; cbn [cK cb]. ring.
+  Qed.
+
+  Lemma g_part_scal a (g g' : nat -> F) n :
+    (forall k, g' k = a * g k) -> g_part (scale_cfg c) g' n = a * g_part c g n.
+  Proof.
+    intros H. unfold g_part. cbv zeta. rewrite !(cumint_scal a g g') by exact H.
+    cbn [scale_cfg cK cls cb]. rewrite !fdiv_mul.
+    destruct (Nat.eqb n 0); ring.
+  Qed.
+
+  Lemma t_omega_scal a (Tf Tf' g g' vg vg' : nat -> F) n :
+    (forall k, Tf' k = kT * Tf k) -> (forall k, g' k = a * g k) -> (forall k, vg' k = a * vg k) ->
+    t_omega_over_sigma_sp (scale_cfg c) Tf' g' vg' n = kT * a * t_omega_over_sigma_sp c Tf g vg n.
+  Proof.
+    intros HT Hg Hv. unfold t_omega_over_sigma_sp. rewrite (g_part_scal a g g') by exact Hg.
+    rewrite HT, Hv. ring.
+  Qed.
+
+  (** temperature tendency, adiabatic term: kappa * T * omega/p  (Theta / T) *)
+  Theorem temp_adiabatic_homogeneous x n :
+    temp_adiabatic (scale_cfg c) (scale_ncol x) n = kT * kr * temp_adiabatic c x n.
+  Proof.
+    unfold temp_adiabatic. cbv zeta.
+    rewrite (t_omega_scal kr (cTref c) _ (g_explicit x) _ (u_dot_grad x)).
+    2:{ intros k. reflexivity. }
+    2,3: intros k; unfold g_explicit; apply u_dot_grad_homogeneous.
+    rewrite (t_omega_scal kr (n_temp x) _ (g_full_adiabatic x) _ (u_dot_grad x)).
+    2:{ intros k. reflexivity. }
+    2:{ intros k. unfold g_full_adiabatic. rewrite u_dot_grad_homogeneous. unfold scale_ncol, scol; cbn. ring. }
+    2:{ intros k. apply u_dot_grad_homogeneous. }
+    cbn [scale_cfg ckappa]. ring.
+  Qed.
+
+  (** d(log ps)/dt = - sum dsigma * u.grad(log ps)   (1 / T) *)
+  Theorem log_pressure_tendency_homogeneous x :
+    log_pressure_tendency (scale_cfg c) (scale_ncol x) = kr * log_pressure_tendency c x.
+  Proof.
+    unfold log_pressure_tendency; cbn [scale_cfg cK cb].
+    unfold sigma_integral. rewrite (sumn_ext (cK c) _ (fun k => kr * xdsigma (cb c) (u_dot_grad x) k)).
+    - rewrite sumn_scal_l. ring.
+    - intros k _. unfold xdsigma. rewrite u_dot_grad_homogeneous. ring.
+  Qed.
+
+  Lemma cva_ext K b (w w' x x' : nat -> F) wt wb dt db n :
+    (forall k, w' k = w k) -> (forall k, x' k = x k) ->
+    centered_vertical_advection K b w' x' wt wb dt db n = centered_vertical_advection K b w x wt wb dt db n.
+  Proof.
+    intros Hw Hx. unfold centered_vertical_advection. cbv zeta.
+    rewrite !(pad_tb_ext K wt wb w' w) by exact Hw.
+    rewrite !(pad_tb_ext K dt db (centered_difference b x') (centered_difference b x)).
+    2,3: intros k; unfold centered_difference; now rewrite !Hx.
+    reflexivity.
+  Qed.
+
+  Lemma vertical_tendency_scal aw ax (w w' xx xx' : nat -> F) n :
+    (forall k, w' k = aw * w k) -> (forall k, xx' k = ax * xx k) ->
+    vertical_tendency (scale_cfg c) w' xx' n = aw * ax * vertical_tendency c w xx n.
+  Proof.
+    intros Hw Hx. unfold vertical_tendency, scale_cfg; cbn [cK cb].
+    rewrite (cva_ext _ _ (scol aw w) w' (scol ax xx) xx') by (intros k; unfold scol; auto).
+    pose proof (centered_vertical_advection_bilinear (cK c) (cb c) w xx 0 0 0 0 aw ax n) as H.
+    replace (aw * 0) with (0 : F) in H by ring. replace (ax * 0) with (0 : F) in H by ring. exact H.
+  Qed.
+
+  Lemma sigma_dot_full_homogeneous x r :
+    sigma_dot_full (scale_cfg c) (scale_ncol x) r = kr * sigma_dot_full c x r.
+  Proof.
+    unfold sigma_dot_full. apply sigma_dot_scal. intros k. unfold g_full_diag.
+    rewrite u_dot_grad_homogeneous. unfold scale_ncol, scol; cbn. ring.
+  Qed.
+
+  (** momentum equation, dry: (zeta + f) k x v + sigma_dot dv/dsigma + R T' grad(ln ps)  (L / T^2) *)
+  Theorem combined_uv_homogeneous va x k :
+    combined_u (scale_cfg c) va (scale_ncol x) (rt_dry (scale_cfg c) (scale_ncol x)) k
+      = ku * kr * combined_u c va x (rt_dry c x) k /\
+    combined_v (scale_cfg c) va (scale_ncol x) (rt_dry (scale_cfg c) (scale_ncol x)) k
+      = ku * kr * combined_v c va x (rt_dry c x) k.
+  Proof.
+    assert (VT : forall (y : nat -> F), vertical_tendency (scale_cfg c) (sigma_dot_full (scale_cfg c) (scale_ncol x)) (scol ku y) k
+                 = kr * ku * vertical_tendency c (sigma_dot_full c x) y k).
+    { intros y. apply vertical_tendency_scal; [intros r; apply sigma_dot_full_homogeneous | intros r; reflexivity]. }
+    assert (PG : forall gr : F, kR * cR c * (kT * n_temp x k) * (kg * gr) = ku * kr * (cR c * n_temp x k * gr)).
+    { intros gr. rewrite <- H_accel. ring. }
+    split; unfold combined_u, combined_v; cbv zeta.
+    - destruct va.
+      + change (n_u (scale_ncol x)) with (scol ku (n_u x)). rewrite VT.
+        unfold rt_dry, scale_ncol, scale_cfg, scol; cbn [n_u n_v n_vort n_div n_temp n_gx n_gy n_sec2 n_f cR].
+        rewrite PG. ring.
+      + unfold rt_dry, scale_ncol, scale_cfg, scol; cbn [n_u n_v n_vort n_div n_temp n_gx n_gy n_sec2 n_f cR].
+        rewrite PG. ring.
+    - destruct va.
+      + change (n_v (scale_ncol x)) with (scol ku (n_v x)). rewrite VT.
+        unfold rt_dry, scale_ncol, scale_cfg, scol; cbn [n_u n_v n_vort n_div n_temp n_gx n_gy n_sec2 n_f cR].
+        rewrite PG. ring.
+      + unfold rt_dry, scale_ncol, scale_cfg, scol; cbn [n_u n_v n_vort n_div n_temp n_gx n_gy n_sec2 n_f cR].
+        rewrite PG. ring.
+  Qed.
+End NodalTerms.
